@@ -29,7 +29,7 @@ from .logging import SSHLogger
 from .misc import ProtocolError, PasswordChangeRequired, get_symbol_names
 from .misc import run_in_executor
 from .packet import Boolean, String, UInt32, SSHPacket, SSHPacketHandler
-from .public_key import SigningKey
+from .public_key import SigningKey, SSHKeyPair
 from .saslprep import saslprep, SASLPrepError
 
 
@@ -317,6 +317,11 @@ class _ClientPublicKeyAuth(ClientAuth):
 
     _handler_names = get_symbol_names(globals(), 'MSG_USERAUTH_PK_')
 
+    def __init__(self, conn: 'SSHClientConnection', method: bytes):
+        super().__init__(conn, method)
+
+        self._keypair: Optional[SSHKeyPair] = None
+
     async def _start(self) -> None:
         """Start client public key authentication"""
 
@@ -358,7 +363,8 @@ class _ClientPublicKeyAuth(ClientAuth):
         key_data = packet.get_string()
         packet.check_end()
 
-        assert self._keypair is not None
+        if self._keypair is None:
+            raise ProtocolError('Unexpected public key ok')
 
         if (algorithm != self._keypair.algorithm or
                 key_data != self._keypair.public_data):
